@@ -53,7 +53,24 @@ def build(r, resolve):
         dt = np.dtype(r[2])
         dpv = None if r[4] is None else np.array(r[4], dtype=np.int64)
         mat = np.array(r[1], dtype=dt).reshape(len(r[1]), len(vs))
-        return pnd.ge_polyhedron_config(mat, default_prio_vector=dpv, variables=vs, dtype=dt.type)
+        opts = r[5] if len(r) > 5 and r[5] else {}
+        lay = opts.get("layout", "C")
+        if lay == "F":
+            mat = np.asfortranarray(mat)
+        elif lay == "rowslice":
+            # a non-contiguous view: every second row of a larger buffer
+            big = np.full((2 * mat.shape[0], mat.shape[1]), 7, dtype=dt)
+            big[::2] = mat
+            mat = big[::2]
+        elif lay == "colslice":
+            # a view that skips a junk column of a larger buffer (row stride > row length)
+            big = np.full((mat.shape[0], mat.shape[1] + 1), 7, dtype=dt)
+            big[:, :-1] = mat
+            mat = big[:, :-1]
+        kw = {}
+        if opts.get("index") is not None:
+            kw["index"] = [puan.variable(v[0], (v[1], v[2])) for v in opts["index"]]
+        return pnd.ge_polyhedron_config(mat, default_prio_vector=dpv, variables=vs, dtype=dt.type, **kw)
     if t == "ref":
         return resolve(r[1])
     ch = lambda xs: [build(x, resolve) for x in xs]
